@@ -125,6 +125,40 @@ Proof.
     rewrite El. reflexivity.
 Qed.
 
+(* ---------- PRINT e1 e2 ... (items without function calls: TAB and SPC are calls) ---------- *)
+Definition print_code (es : list expr) : list opcode := flat_map (fun e => postfix e ++ [OpPrint]) es.
+
+Lemma print_code_app a b : print_code (a ++ b) = print_code a ++ print_code b.
+Proof. unfold print_code. apply flat_map_app. Qed.
+
+Lemma cg_print_shape : forall c es, forallb pure es = true -> lenN (print_code es) <= MAX_POOL ->
+  cg_stmt (SPrint c es) = ((c, plain (print_code es)), []).
+Proof.
+  intros c es Hp Hs. cbn [cg_stmt].
+  assert (Hfr : forall es0 : list expr, forallb pure es0 = true -> lenN (print_code es0) <= MAX_POOL ->
+            map fst (map cg_expr es0) = map (fun e => (fst (fst (cg_expr e)), plain (postfix e))) es0 /\ flat_map snd (map cg_expr es0) = []).
+  { induction es0 as [| e r IH]; intros Hp0 Hs0; [split; reflexivity |]. cbn [forallb] in Hp0. apply andb_prop in Hp0. destruct Hp0 as [He Hr].
+    cbn [print_code flat_map] in Hs0. fold (print_code r) in Hs0. rewrite !lenN_app, lenN_one in Hs0.
+    destruct (cg_expr_postfix e He ltac:(lia)) as [E1 E2]. destruct (IH Hr ltac:(lia)) as [I1 I2].
+    cbn [map flat_map]. rewrite I1, I2, E2. split; [| reflexivity]. f_equal.
+    destruct (cg_expr e) as [[ce le] ee]. cbn [fst snd] in *. subst le. reflexivity. }
+  destruct (Hfr es Hp Hs) as [E1 E2]. rewrite E1, E2. cbn [app].
+  assert (G : forall (es0 : list expr) acc (m0 : LM unit), forallb pure es0 = true -> lenN (acc ++ print_code es0) <= MAX_POOL ->
+            m0 link_empty = (plain acc, Ok tt) ->
+            fold_left (fun (m : LM unit) (f : col * link) => ldo _ <~ m ;; ldo _ <~ l_append (snd f) ;; l_push OpPrint)
+                      (map (fun e => (fst (fst (cg_expr e)), plain (postfix e))) es0) m0 link_empty
+            = (plain (acc ++ print_code es0), Ok tt)).
+  { induction es0 as [| e r IH]; intros acc m0 Hp0 Hs0 H0; cbn [map fold_left print_code flat_map]; [rewrite app_nil_r; exact H0 |].
+    fold (print_code r). cbn [forallb] in Hp0. apply andb_prop in Hp0. destruct Hp0 as [He Hr].
+    cbn [print_code flat_map] in Hs0. fold (print_code r) in Hs0. rewrite !lenN_app, lenN_one in Hs0.
+    replace (acc ++ (postfix e ++ [OpPrint]) ++ print_code r) with ((acc ++ postfix e ++ [OpPrint]) ++ print_code r) by (rewrite <- !app_assoc; reflexivity).
+    apply IH; [exact Hr | rewrite !lenN_app, lenN_one; lia |].
+    unfold lbind. rewrite H0. cbn [snd]. rewrite (l_append_plain acc (postfix e)) by (rewrite lenN_app; lia).
+    rewrite (l_push_plain OpPrint (acc ++ postfix e)) by (rewrite !lenN_app, lenN_one; lia). rewrite <- app_assoc. reflexivity. }
+  pose proof (G es [] (lret tt) Hp Hs eq_refl) as Hfold. cbn [app] in Hfold.
+  unfold run_frag. unfold lbind at 1. cbv beta. rewrite Hfold. reflexivity.
+Qed.
+
 (* ====================================================================================================
    Part 2: the layout of a compiled program
    ==================================================================================================== *)
@@ -140,7 +174,8 @@ Inductive fstmt : stmt -> piece -> Prop :=
     fstmt (SGoto c (ESng ce b)) (mkPiece [OpJump 0] [(0, (ce, Z.of_N n))] 0)
 | fs_on : forall c e (ts : list tgt), pure e = true -> Forall tgt_ok ts -> lenN ts <= 32767 ->
     fstmt (SOnGoto c e (map tgt_expr ts)) (mkPiece (on_code e ts) (jump_refs (2 + lenN (postfix e)) ts) (-1))
-| fs_end : forall c, fstmt (SEnd c) (mkPiece [OpEnd] [] 0).
+| fs_end : forall c, fstmt (SEnd c) (mkPiece [OpEnd] [] 0)
+| fs_print : forall c es, forallb pure es = true -> fstmt (SPrint c es) (mkPiece (print_code es) [] 0).
 
 Lemma refs_in_code s p : fstmt s p -> forall k v, In (k, v) (pc_refs p) -> k < lenN (pc_ops p) /\ (0 <= snd v)%Z.
 Proof.
@@ -151,6 +186,7 @@ Proof.
     + unfold on_code, lenN in *. cbn [length]. rewrite !app_length, repeat_length. cbn [length]. lia.
     + clear - Hin. revert Hin. generalize (2 + lenN (postfix e)). induction ts as [| t r IH]; intros base Hin; [destruct Hin |].
       destruct Hin as [E | Hin]; [injection E as _ <-; cbn; lia | exact (IH _ Hin)].
+  - destruct Hin.
   - destruct Hin.
 Qed.
 
@@ -163,6 +199,7 @@ Proof.
   - eexists. apply cg_goto_shape. exact H.
   - destruct (cg_on_shape c e ts H H0 H1 Hs) as [se E]. eexists. exact E.
   - eexists. reflexivity.
+  - eexists. apply (cg_print_shape c es H Hs).
 Qed.
 
 (* the link of a program under compilation: no DATA, no WHILE/WEND *)
